@@ -29,7 +29,7 @@ class SchedSock(HandshakeSock):
         return super().recv(n)
 
 
-def make_ws(sched, after, accept_cycle):
+def make_ws(sched, after, accept_cycle, disp=False):
     """A connected WebSocket whose locks and transport are scheduling points."""
     import websocket
     from websocket import _core, _abnf
@@ -49,7 +49,13 @@ def make_ws(sched, after, accept_cycle):
         _core.threading, _abnf.Lock = real_threading, real_lock
     try:
         s = SchedSock(sched, after, accept_cycle=accept_cycle)
-        ws = websocket.WebSocket()          # default configuration: enable_multithread=True
+        if disp:
+            # the way WebSocketApp builds every one of its connections: enable_multithread=True and its dispatcher object (writes go
+            # through dispatcher.send)
+            from websocket import _dispatcher
+            ws = websocket.WebSocket(enable_multithread=True, dispatcher=_dispatcher.Dispatcher(None, 10))
+        else:
+            ws = websocket.WebSocket()          # default configuration: enable_multithread=True
         ws.connect("ws://sim.test/", socket=s, suppress_origin=True)
         s.hs_mark = len(s.log)
         s.mark = len(s.written)
@@ -61,9 +67,9 @@ def make_ws(sched, after, accept_cycle):
     return ws, s
 
 
-def run_senders(prefix, payloads, accept_cycle, line_rng=None):
+def run_senders(prefix, payloads, accept_cycle, line_rng=None, disp=False):
     sched = Scheduler(prefix, trace_lines=line_rng is not None, rng=line_rng)
-    ws, s = make_ws(sched, [], accept_cycle)
+    ws, s = make_ws(sched, [], accept_cycle, disp=disp)
     rets = {}
     for i, p in enumerate(payloads):
         def body(i=i, p=p):
@@ -164,6 +170,20 @@ def run(ctx):
                 break
             if judge_wire(T, ctx, pub, res["wire"], payloads, res["rets"]) is False:
                 break
+    # the same on a connection built the way WebSocketApp builds its connections (a dispatcher object given)
+    for nthreads, cycle, max_runs in ((2, (1,), 200), (3, (2,), 200)):
+        if ctx.tier != "quick":
+            max_runs *= 6
+        payloads = [bytes([65 + i]) * (1 + i) for i in range(nthreads)]
+        for prefix, trace, res in explore(lambda p: run_senders(p, payloads, cycle, disp=True), bound, max_runs):
+            pub = {"kind": "senders", "threads": nthreads, "accept_cycle": list(cycle), "schedule": list(prefix), "dispatcher": True}
+            T.case(("send-disp", nthreads, cycle, tuple(pk for _, pk, _ in trace)), nontrivial=preemptions(trace) > 0,
+                   bucket=f"senders{nthreads}-app-connection", sample={"threads": nthreads, "picks": [pk for _, pk, _ in trace][:30]})
+            if res["errors"]:
+                T.fail("spec", pub, "no exception", str(res["errors"])[:300], {"site": "send", "cls": "exception-in-thread"})
+                break
+            if judge_wire(T, ctx, pub, res["wire"], payloads, res["rets"]) is False:
+                break
     # a frame larger than any internal piece size (64 KiB) racing with a small one, under short writes
     from sim.sock import lcg_bytes
     big = [lcg_bytes(70000, 3), b"BB", b"C"]
@@ -242,7 +262,7 @@ def run(ctx):
     return T.result(
         "single sender: every short-write pattern (all compositions) for frames of 6-8 bytes, sampled patterns for 126..70000-byte "
         "payloads; 2-4 real sender threads in the default thread-safe configuration with every lock acquisition and every "
-        "transport send as a scheduling point, all interleavings up to preemption bound 2 (3) and random schedules beyond; "
+        "transport send as a scheduling point, all interleavings up to preemption bound 2 (3) and random schedules beyond, also on a connection built with a dispatcher object as WebSocketApp builds them; "
         "2-3 real receiver threads on streams with fragmented messages and an interleaved ping, chunked 1/4/1000 bytes. Judged by "
         "the extracted RFC decoder: the wire must be whole frames, one per send, in some serial order; every message delivered "
         "intact to exactly one receiver. non-trivial = at least one preemption / more than one write",
@@ -260,7 +280,7 @@ def replay(ctx, sc):
     if sc.get("kind") == "senders":
         from sim.sock import lcg_bytes
         payloads = [lcg_bytes(*map(int, p[4:].split(","))) if p.startswith("lcg:") else bytes.fromhex(p) for p in sc["payloads"]] if "payloads" in sc else [bytes([65 + i]) * (1 + i) for i in range(sc["threads"])]
-        trace, res = run_senders(tuple(sc["schedule"]), payloads, tuple(sc.get("accept_cycle", (1,))))
+        trace, res = run_senders(tuple(sc["schedule"]), payloads, tuple(sc.get("accept_cycle", (1,))), disp=bool(sc.get("dispatcher")))
         judge_wire(T, ctx, sc, res["wire"], payloads, res["rets"])
         return T.failures[0] if T.failures else None
     return {"note": "rerun ./check C12 quick"}
